@@ -361,8 +361,8 @@ def check_1090(col, binpath, rng, tag, seg_kind, delay_kind, malformed, scratch,
 def parse_when_stable(sess, sentinel_msgs=1, cap=60.0, quiet_cap=6.0):
     """Switch to the Airplanes tab; wait until the sentinel aircraft of the feed shows the expected
     message count (everything before it has then been processed) and the table stopped changing.
-    If the sentinel never shows up the table is taken as it is after `cap` seconds or 6 s of
-    silence: a lost sentinel is a lost line."""
+    If the sentinel never shows up the table is taken as it is after `cap` seconds: a lost
+    sentinel is a lost line."""
     sess.key("F3")
     last = None
     stable_since = time.monotonic()
@@ -379,7 +379,9 @@ def parse_when_stable(sess, sentinel_msgs=1, cap=60.0, quiet_cap=6.0):
             continue
         quiet = time.monotonic() - stable_since
         seen = rows is not None and any(r["icao"] == "%06x" % SENTINEL and r["msgs"] == str(sentinel_msgs) for r in rows)
-        if (seen and quiet > 0.5) or quiet > quiet_cap:
+        # only the sentinel (or the cap) ends the wait: "nothing has changed for a while" would be a
+        # verdict by wall clock on a loaded machine (quiet_cap is kept for the callers' arithmetic)
+        if seen and quiet > 0.5:
             return rows
     return sess.airplanes_rows()
 
